@@ -161,7 +161,8 @@ CanEmpty(g) ==
     [] o \in {"foldl", "foldlw"} -> CanEmpty(g[2]) /\ CanEmpty(g[3])
     [] o \in {"foldr", "foldrw"} -> CanEmpty(g[2]) /\ CanEmpty(g[3])
     [] o = "recover" -> TRUE
-    [] o = "ref" -> TRUE
+    [] o \in {"ref", "var"} -> TRUE
+    [] o = "let" -> CanEmpty(g[3])
     [] o \in {"withctx", "mapctx"} -> CanEmpty(g[3])
     [] o \in {"thenctx", "ignctx"} -> CanEmpty(g[2]) /\ CanEmpty(g[3])
     [] o = "nested" -> CanEmpty(g[3])
@@ -185,8 +186,8 @@ WFStrat(s) ==
     [] Op(s) \in {"skipuntil", "retry"} -> WF(s[2]) /\ WF(s[3]) /\ ~CanEmpty(s[2])
 WF(g) ==
   LET o == Op(g) IN
-  CASE o \in {"just", "any", "oneof", "noneof", "sel", "end", "empty", "cust", "probe", "cfgjust", "cfgjustr", "ref", "tree"} -> TRUE
-    [] o \in {"then", "ithen", "theni", "or", "andis", "thenctx", "ignctx", "nested"} -> WF(g[2]) /\ WF(g[3])
+  CASE o \in {"just", "any", "oneof", "noneof", "sel", "end", "empty", "cust", "probe", "cfgjust", "cfgjustr", "ref", "var", "tree"} -> TRUE
+    [] o \in {"then", "ithen", "theni", "or", "andis", "thenctx", "ignctx", "nested", "let"} -> WF(g[2]) /\ WF(g[3])
     [] o = "delim" -> WF(g[2]) /\ WF(g[3]) /\ WF(g[4])
     [] o = "padded" -> WF(g[2]) /\ WF(g[3])
     [] o \in {"group", "grouparr", "choice", "choicev"} -> AllWF(g[2])
@@ -207,8 +208,8 @@ IsNode(x) == /\ DOMAIN x # {} /\ 1 \in DOMAIN x
 HasOp(g, ops) ==
   LET o == Op(g) IN
   \/ o \in ops
-  \/ CASE o \in {"just", "any", "oneof", "noneof", "sel", "end", "empty", "cust", "probe", "cfgjust", "cfgjustr", "ref", "tree"} -> FALSE
-       [] o \in {"then", "ithen", "theni", "or", "andis", "thenctx", "ignctx", "nested", "padded"} -> HasOp(g[2], ops) \/ HasOp(g[3], ops)
+  \/ CASE o \in {"just", "any", "oneof", "noneof", "sel", "end", "empty", "cust", "probe", "cfgjust", "cfgjustr", "ref", "var", "tree"} -> FALSE
+       [] o \in {"then", "ithen", "theni", "or", "andis", "thenctx", "ignctx", "nested", "padded", "let"} -> HasOp(g[2], ops) \/ HasOp(g[3], ops)
        [] o = "delim" -> HasOp(g[2], ops) \/ HasOp(g[3], ops) \/ HasOp(g[4], ops)
        [] o \in {"group", "grouparr", "choice", "choicev"} -> AnyHasOp(g[2], ops)
        [] o \in {"ornot", "not", "rewind", "map", "to", "ignored", "filter", "trymap", "trymapw", "validate", "mw",
